@@ -382,7 +382,7 @@ package pongo2
 //@ func (*Value).isStringer
 //@   ensures {C02} @true-exactly-when-String-delegates-to-the-values-own-method r0 == (!VIsNil(v) && implements(VInterface(v), "fmt.Stringer"))
 //@ func (*Value).String
-//@   at fmt.Stringer.String requires {C02} @delegates-for-the-value-isStringer-looked-at !VIsNil(v) && arg0 == VInterface(v)
+//@   at fmt.Stringer.String requires {C01,C02,C08} @delegates-for-the-value-isStringer-looked-at !VIsNil(v) && arg0 == VInterface(v)
 
 // a template belongs to the set that compiled it; sub-templates belong to the set of the referring template
 //@ func newTemplate
@@ -824,7 +824,7 @@ package pongo2
 //@   invariant 3 {C09} @one-call-per-item calls("param.fn") == rangeindex + 1 && calls("param.empty") == 0
 //@   invariant 4 {C09} @no-calls-while-reversing calls("param.fn") == 0 && calls("param.empty") == 0
 //@   invariant 5 {C09} @one-call-per-rune calls("param.fn") == i && calls("param.empty") == 0
-//@   ensures {C09} @empty-exactly-when-nothing-was-iterated calls("param.empty") <= 1 && ((calls("param.empty") == 1) <==> (calls("param.fn") == 0))
+//@   ensures {C09,C14} @empty-exactly-when-nothing-was-iterated calls("param.empty") <= 1 && ((calls("param.empty") == 1) <==> (calls("param.fn") == 0))
 // cycle: the position lives in the execution context, keyed by the node; next returns the argument at the
 // remembered position (0 when nothing valid is remembered) and remembers the following one, round-robin
 //@ spec CyclePos(has bool, st any, n int) int = ite(has && typeis(st, "int") && 0 <= unbox(st, "int") && unbox(st, "int") < n, unbox(st, "int"), 0)
@@ -892,6 +892,7 @@ package pongo2
 //@ func newExecutionContext
 //@   ensures {C09} @node-state-exists r0 != nil && r0.nodeState != nil
 //@ func NewChildExecutionContext
+//@   ensures {C02,C17} @the-escaping-mode-of-the-region-is-inherited r0.Autoescape == parent.Autoescape
 //@   ensures {C09} @node-state-shared-with-the-parent r0.nodeState != nil && r0.nodeState == parent.nodeState
 //@ func (*ExecutionContext).setNodeState
 //@   flag inline
@@ -981,12 +982,12 @@ package pongo2
 //@   ensures {C07} @floats-as-they-are (RVKind(Resolved(v.val)) == 13 || RVKind(Resolved(v.val)) == 14) ==> r0 == RVFloat(Resolved(v.val))
 //@   ensures {C07} @integers-converted (2 <= RVKind(Resolved(v.val)) && RVKind(Resolved(v.val)) <= 6) ==> r0 == tofloat(RVInt(Resolved(v.val)))
 //@ func (*Value).IsTrue
-//@   ensures {C07,C09} @integers-are-true-when-non-zero (2 <= RVKind(Resolved(v.val)) && RVKind(Resolved(v.val)) <= 6) ==> r0 == (RVInt(Resolved(v.val)) != 0)
-//@   ensures {C07,C09} @unsigned-are-true-when-non-zero (7 <= RVKind(Resolved(v.val)) && RVKind(Resolved(v.val)) <= 11) ==> r0 == (RVUint(Resolved(v.val)) != 0)
-//@   ensures {C07,C09} @floats-are-true-when-non-zero (RVKind(Resolved(v.val)) == 13 || RVKind(Resolved(v.val)) == 14) ==> r0 == !fzero(RVFloat(Resolved(v.val)))
-//@   ensures {C07,C09} @booleans-are-themselves RVKind(Resolved(v.val)) == 1 ==> r0 == RVBool(Resolved(v.val))
-//@   ensures {C07,C09} @collections-and-strings-are-true-when-non-empty (RVKind(Resolved(v.val)) == 17 || RVKind(Resolved(v.val)) == 18 || RVKind(Resolved(v.val)) == 21 || RVKind(Resolved(v.val)) == 23 || RVKind(Resolved(v.val)) == 24) ==> r0 == (RVLen(Resolved(v.val)) > 0)
-//@   ensures {C07,C09} @nil-is-false RVKind(Resolved(v.val)) == 0 ==> !r0
+//@   ensures {C07,C09,C18} @integers-are-true-when-non-zero (2 <= RVKind(Resolved(v.val)) && RVKind(Resolved(v.val)) <= 6) ==> r0 == (RVInt(Resolved(v.val)) != 0)
+//@   ensures {C07,C09,C18} @unsigned-are-true-when-non-zero (7 <= RVKind(Resolved(v.val)) && RVKind(Resolved(v.val)) <= 11) ==> r0 == (RVUint(Resolved(v.val)) != 0)
+//@   ensures {C07,C09,C18} @floats-are-true-when-non-zero (RVKind(Resolved(v.val)) == 13 || RVKind(Resolved(v.val)) == 14) ==> r0 == !fzero(RVFloat(Resolved(v.val)))
+//@   ensures {C07,C09,C18} @booleans-are-themselves RVKind(Resolved(v.val)) == 1 ==> r0 == RVBool(Resolved(v.val))
+//@   ensures {C07,C09,C18} @collections-and-strings-are-true-when-non-empty (RVKind(Resolved(v.val)) == 17 || RVKind(Resolved(v.val)) == 18 || RVKind(Resolved(v.val)) == 21 || RVKind(Resolved(v.val)) == 23 || RVKind(Resolved(v.val)) == 24) ==> r0 == (RVLen(Resolved(v.val)) > 0)
+//@   ensures {C07,C09,C18} @nil-is-false RVKind(Resolved(v.val)) == 0 ==> !r0
 //@ func (*Value).Negate
 //@   ensures {C07} @integers-complemented (2 <= RVKind(Resolved(v.val)) && RVKind(Resolved(v.val)) <= 11) ==> (r0 != nil && VIsTrue(r0) == !VIsTrue(v))
 //@   ensures {C07} @floats-complemented (RVKind(Resolved(v.val)) == 13 || RVKind(Resolved(v.val)) == 14) ==> (r0 != nil && VIsTrue(r0) == !VIsTrue(v))
@@ -1140,6 +1141,8 @@ package pongo2
 //@ axiom forall i int :: (0 <= i && i < len(TokenSymbols)) ==> len(TokenSymbols[i]) > 0
 //@ writers {C01} G|TokenSymbols init
 //@ func (*lexer).accept
+//@   ensures {C06,C16} @the-character-taken-is-one-of-those-asked-for r0 ==> runein(what, lastresult("(*lexer).next"))
+//@   ensures {C06,C16} @an-ascii-character-taken-is-the-byte-at-the-old-position (r0 && lastresult("(*lexer).next") < 128) ==> (l.width == 1 && strat(l.input, old(l.pos)) == lastresult("(*lexer).next"))
 //@   ensures {C01,C06,C16} @takes-one-character-or-nothing (r0 ==> (1 <= l.width && l.pos == old(l.pos) + l.width)) && (!r0 ==> l.pos == old(l.pos))
 //@   ensures {C16} @column-moves-with-the-position wrap64(l.col - l.pos) == old(wrap64(l.col - l.pos))
 //@ func (*lexer).acceptRun
@@ -1219,6 +1222,7 @@ package pongo2
 //@ writers {C16} F|lexer|name
 //@ writers {C16} F|lexer|input
 //@ func (*lexer).next
+//@   ensures {C06} @the-further-bytes-of-a-rune-are-continuation-bytes forall k int :: (old(l.pos) < k && k < l.pos) ==> strat(l.input, k) >= 128
 //@   ensures {C16} @column-moves-with-the-position wrap64(l.col - l.pos) == old(wrap64(l.col - l.pos))
 //@ func (*lexer).backup
 //@   ensures {C16} @column-moves-with-the-position wrap64(l.col - l.pos) == old(wrap64(l.col - l.pos))
@@ -1345,7 +1349,7 @@ package pongo2
 //@   invariant 1 {C01,C08} @current-can-be-inspected RVKind(current) == 0 || RVCanInterface(current)
 // each step of a dotted / subscripted name follows exactly one reflect operation (C08)
 //@ func (*variableResolver).resolve
-//@   at reflect.ValueOf#1 requires {C08,C12} @names-set-by-tags-shadow-the-callers-context (has(ctx.Private, vr.parts[0].s) ==> arg0 == ctx.Private[vr.parts[0].s]) && (!has(ctx.Private, vr.parts[0].s) ==> (has(ctx.Public, vr.parts[0].s) ==> arg0 == ctx.Public[vr.parts[0].s]) && (!has(ctx.Public, vr.parts[0].s) ==> arg0 == nil))
+//@   at reflect.ValueOf#1 requires {C08,C12,C13,C19} @names-set-by-tags-shadow-the-callers-context (has(ctx.Private, vr.parts[0].s) ==> arg0 == ctx.Private[vr.parts[0].s]) && (!has(ctx.Private, vr.parts[0].s) ==> (has(ctx.Public, vr.parts[0].s) ==> arg0 == ctx.Public[vr.parts[0].s]) && (!has(ctx.Public, vr.parts[0].s) ==> arg0 == nil))
 //@   at (reflect.Value).MethodByName requires {C08} @method-of-that-name-on-the-value-as-it-is arg1 == part.s && part.typ == varTypeIdent
 //@   at (reflect.Value).Index#0 requires {C08} @sequence-element-at-the-written-index arg1 == part.i && part.typ == varTypeInt && 0 <= part.i && part.i < RVLen(arg0)
 //@   at fieldByName#0 requires {C08} @struct-field-of-that-name arg1 == part.s && part.typ == varTypeIdent
@@ -1561,7 +1565,7 @@ package pongo2
 //@   ensures {C02} @other-kinds-print-as-reflect-prints-them (!VIsNil(v) && !implements(VInterface(v), "fmt.Stringer") && RVKind(Resolved(v.val)) != 24 && !(1 <= RVKind(Resolved(v.val)) && RVKind(Resolved(v.val)) <= 11) && RVKind(Resolved(v.val)) != 13 && RVKind(Resolved(v.val)) != 14) ==> r0 == RVString(Resolved(v.val))
 // the safe mark of a resolved name is that of the *Value unpacked last on the way, never one picked up earlier
 //@ func (*variableResolver).resolve
-//@   iterend 1 {C02} @the-safe-mark-is-that-of-the-value-unpacked-last lastassert("*Value") != atiter(1, lastassert("*Value")) ==> next_isSafe == lastassert("*Value", "safe")
+//@   iterend 1 {C02,C13} @the-safe-mark-is-that-of-the-value-unpacked-last lastassert("*Value") != atiter(1, lastassert("*Value")) ==> next_isSafe == lastassert("*Value", "safe")
 // a name step prefers a method of that name on the value as it is; the other look-ups happen only when there is none
 //@   at (reflect.Value).MapIndex#0 requires {C08} @no-method-of-that-name RVKind(lastresult("(reflect.Value).MethodByName")) == 0
 //@   at fieldByName#0 requires {C08} @no-method-of-that-name RVKind(lastresult("(reflect.Value).MethodByName")) == 0
@@ -1578,7 +1582,7 @@ package pongo2
 //@   at TagParser requires {C10} @one-level-deeper-than-the-enclosing-construct p.template.level == wrap64(old(p.template.level) + 1)
 // a template has options of its own (a copy of its set's): changing them on one template changes no other
 //@ func newTemplate
-//@   ensures {C15} @own-copy-of-the-sets-options r1 == nil ==> (r0 != nil && r0.Options != set.Options && fresh(r0.Options))
+//@   ensures {C06,C15} @own-copy-of-the-sets-options r1 == nil ==> (r0 != nil && r0.Options != set.Options && fresh(r0.Options))
 // every newline that is taken as literal text starts a new line (line counter and column)
 //@ func (*lexer).run
 //@   iterend 0 {C16} @a-newline-taken-as-text-starts-a-new-line (l.pos == old(l.pos) + 1 && strat(l.input, old(l.pos)) == 10 && !l.errored) ==> (l.line == wrap64(old(l.line) + 1) && l.col == 1)
@@ -1951,3 +1955,186 @@ package pongo2
 //@   at (*Error).updateFromTokenIfNeeded#0 requires {C16} @the-stamped-position-lies-in-the-source-the-error-names arg0.Token != nil || arg0.Line > 0 || arg0.Filename == "" || arg0.Filename == arg2.Filename
 //@   at (*Error).updateFromTokenIfNeeded#1 requires {C16} @the-stamped-position-lies-in-the-source-the-error-names arg0.Filename == ""
 //@   at (*Error).updateFromTokenIfNeeded#2 requires {C16} @the-stamped-position-lies-in-the-source-the-error-names arg0.Filename == ""
+
+// ---- equality, membership and truth on the shared value type (C07, C09): the helpers every comparison,
+// `in`, `ifequal`, `ifchanged` and `if` lean on ----
+//@ func (*Value).EqualValueTo
+//@   ensures {C07,C09} @two-integers-are-equal-when-their-numbers-are (VIsInteger(v) && VIsInteger(other)) ==> r0 == (VInteger(v) == VInteger(other))
+//@   ensures {C07,C09} @the-empty-value-equals-nothing (!(VIsInteger(v) && VIsInteger(other)) && !(typeis(VInterface(v), "time.Time") && typeis(VInterface(other), "time.Time")) && (RVKind(v.val) == 0 || RVKind(other.val) == 0)) ==> !r0
+//@   ensures {C07,C09} @other-values-are-equal-when-their-go-values-are (!(VIsInteger(v) && VIsInteger(other)) && !(typeis(VInterface(v), "time.Time") && typeis(VInterface(other), "time.Time")) && r0) ==> (RVKind(v.val) != 0 && RVKind(other.val) != 0 && VInterface(v) == VInterface(other))
+//@ func (*Value).Contains
+//@   ensures {C07} @a-string-contains-its-substrings RVKind(Resolved(v.val)) == 24 ==> r0 == lastresult("strings.Contains")
+//@   at strings.Contains requires {C07} @the-text-of-both arg0 == RVString(Resolved(v.val)) && arg1 == VString(other)
+//@   at (*Value).EqualValueTo requires {C07} @the-searched-value-against-each-item arg0 == other
+//@   invariant 0 {C07} @no-earlier-item-was-equal calls("(*Value).EqualValueTo") > 0 ==> !lastresult("(*Value).EqualValueTo")
+//@   ensures {C07} @a-list-contains-what-equals-one-of-its-items ((RVKind(Resolved(v.val)) == 23 || RVKind(Resolved(v.val)) == 17) && calls("(*Value).EqualValueTo") > 0) ==> r0 == lastresult("(*Value).EqualValueTo")
+//@   ensures {C07} @an-empty-list-contains-nothing ((RVKind(Resolved(v.val)) == 23 || RVKind(Resolved(v.val)) == 17) && RVLen(Resolved(v.val)) == 0) ==> !r0
+//@   ensures {C07} @numbers-and-the-empty-value-contain-nothing (RVKind(Resolved(v.val)) <= 16 || RVKind(Resolved(v.val)) == 22) ==> !r0
+//@ func (*Value).IsTrue
+//@   ensures {C07,C09} @a-struct-is-true RVKind(Resolved(v.val)) == 25 ==> r0
+//@   ensures {C07,C09} @pointers-functions-and-interfaces-are-false (RVKind(Resolved(v.val)) == 19 || RVKind(Resolved(v.val)) == 20 || RVKind(Resolved(v.val)) == 22 || RVKind(Resolved(v.val)) == 26) ==> !r0
+//@ func (*Value).Bool
+//@   ensures {C07} @a-boolean-is-itself-anything-else-false (RVKind(Resolved(v.val)) == 1 ==> r0 == RVBool(Resolved(v.val))) && (RVKind(Resolved(v.val)) != 1 ==> !r0)
+
+// ---- the loaders' own path arithmetic (C11): a rooted name is taken as written, any other name is joined to the
+// loader's base directory or, without one, to the directory of the referring template; what is opened is the
+// path that was asked for ----
+//@ func (*LocalFilesystemLoader).Abs
+//@   at filepath.IsAbs requires {C11} @the-written-name-decides arg0 == name
+//@   ensures {C11} @a-rooted-name-is-taken-as-written lastresult("filepath.IsAbs") ==> r0 == name
+//@   at filepath.Dir requires {C11} @directory-of-the-referring-template arg0 == base && base != "" && fs.baseDir == ""
+//@   at filepath.Join#0 requires {C11} @relative-to-the-working-directory-when-nothing-else-is-known fs.baseDir == "" && base == "" && len(arg0) == 2 && arg0[0] == lastresult("os.Getwd") && arg0[1] == name
+//@   at filepath.Join#1 requires {C11} @relative-to-the-referring-template len(arg0) == 2 && arg0[0] == lastresult("filepath.Dir") && arg0[1] == name
+//@   at filepath.Join#2 requires {C11} @the-base-directory-has-priority fs.baseDir != "" && len(arg0) == 2 && arg0[0] == fs.baseDir && arg0[1] == name
+//@   ensures {C11} @any-other-name-is-joined !lastresult("filepath.IsAbs") ==> r0 == lastresult("filepath.Join")
+//@ func (*FSLoader).Abs
+//@   at filepath.Dir requires {C11} @directory-of-the-referring-template arg0 == base
+//@   at filepath.Join requires {C11} @relative-to-the-referring-template len(arg0) == 2 && arg0[0] == lastresult("filepath.Dir") && arg0[1] == name
+//@   ensures {C11} @joined r0 == lastresult("filepath.Join")
+//@ func (*HttpFilesystemLoader).Abs
+//@   ensures {C11} @names-are-rooted-at-the-file-system r0 == name
+//@ func (*LocalFilesystemLoader).Get
+//@   at os.ReadFile requires {C11} @the-path-asked-for arg0 == path
+//@ func (*FSLoader).Get
+//@   at io/fs.FS.Open requires {C11} @the-path-asked-for arg1 == path && arg0 == l.fs
+//@ func (*HttpFilesystemLoader).Get
+//@   at net/http.FileSystem.Open requires {C11} @the-path-asked-for-under-the-base-directory arg0 == h.fs && (h.baseDir == "" ==> arg1 == path) && (h.baseDir != "" ==> arg1 == lastresult("fmt.Sprintf"))
+//@   at fmt.Sprintf requires {C11} @base-directory-slash-path arg0 == "%s/%s" && len(arg1) == 2 && typeis(arg1[0], "string") && unbox(arg1[0], "string") == h.baseDir && typeis(arg1[1], "string") && unbox(arg1[1], "string") == path
+
+// ---- the safe filter on a compound expression (C02): `{{ a|safe + b }}` is not an opt-out - an operator expression
+// counts as filtered only if every operand is ----
+//@ func (*Expression).FilterApplied
+//@   at IEvaluator.FilterApplied#0 requires {C02} @asks-the-first-operand arg0 == expr.expr1 && arg1 == name
+//@   at IEvaluator.FilterApplied#1 requires {C02} @asks-the-second-operand-only-if-the-first-has-it arg0 == expr.expr2 && arg1 == name && expr.expr2 != nil && lastresult("IEvaluator.FilterApplied")
+//@   ensures {C02} @a-single-operand-decides expr.expr2 == nil ==> (calls("IEvaluator.FilterApplied") == 1 && r0 == lastresult("IEvaluator.FilterApplied"))
+//@   ensures {C02} @both-operands-must-have-it (expr.expr2 != nil && r0) ==> (calls("IEvaluator.FilterApplied") == 2 && lastresult("IEvaluator.FilterApplied"))
+//@ func (*relationalExpression).FilterApplied
+//@   at IEvaluator.FilterApplied#0 requires {C02} @asks-the-first-operand arg0 == expr.expr1 && arg1 == name
+//@   at IEvaluator.FilterApplied#1 requires {C02} @asks-the-second-operand-only-if-the-first-has-it arg0 == expr.expr2 && arg1 == name && expr.expr2 != nil && lastresult("IEvaluator.FilterApplied")
+//@   ensures {C02} @a-single-operand-decides expr.expr2 == nil ==> (calls("IEvaluator.FilterApplied") == 1 && r0 == lastresult("IEvaluator.FilterApplied"))
+//@   ensures {C02} @both-operands-must-have-it (expr.expr2 != nil && r0) ==> (calls("IEvaluator.FilterApplied") == 2 && lastresult("IEvaluator.FilterApplied"))
+//@ func (*simpleExpression).FilterApplied
+//@   at IEvaluator.FilterApplied#0 requires {C02} @asks-the-first-operand arg0 == expr.term1 && arg1 == name
+//@   at IEvaluator.FilterApplied#1 requires {C02} @asks-the-second-operand-only-if-the-first-has-it arg0 == expr.term2 && arg1 == name && expr.term2 != nil && lastresult("IEvaluator.FilterApplied")
+//@   ensures {C02} @a-single-operand-decides expr.term2 == nil ==> (calls("IEvaluator.FilterApplied") == 1 && r0 == lastresult("IEvaluator.FilterApplied"))
+//@   ensures {C02} @both-operands-must-have-it (expr.term2 != nil && r0) ==> (calls("IEvaluator.FilterApplied") == 2 && lastresult("IEvaluator.FilterApplied"))
+//@ func (*term).FilterApplied
+//@   at IEvaluator.FilterApplied#0 requires {C02} @asks-the-first-operand arg0 == expr.factor1 && arg1 == name
+//@   at IEvaluator.FilterApplied#1 requires {C02} @asks-the-second-operand-only-if-the-first-has-it arg0 == expr.factor2 && arg1 == name && expr.factor2 != nil && lastresult("IEvaluator.FilterApplied")
+//@   ensures {C02} @a-single-operand-decides expr.factor2 == nil ==> (calls("IEvaluator.FilterApplied") == 1 && r0 == lastresult("IEvaluator.FilterApplied"))
+//@   ensures {C02} @both-operands-must-have-it (expr.factor2 != nil && r0) ==> (calls("IEvaluator.FilterApplied") == 2 && lastresult("IEvaluator.FilterApplied"))
+//@ func (*power).FilterApplied
+//@   at IEvaluator.FilterApplied#0 requires {C02} @asks-the-first-operand arg0 == expr.power1 && arg1 == name
+//@   at IEvaluator.FilterApplied#1 requires {C02} @asks-the-second-operand-only-if-the-first-has-it arg0 == expr.power2 && arg1 == name && expr.power2 != nil && lastresult("IEvaluator.FilterApplied")
+//@   ensures {C02} @a-single-operand-decides expr.power2 == nil ==> (calls("IEvaluator.FilterApplied") == 1 && r0 == lastresult("IEvaluator.FilterApplied"))
+//@   ensures {C02} @both-operands-must-have-it (expr.power2 != nil && r0) ==> (calls("IEvaluator.FilterApplied") == 2 && lastresult("IEvaluator.FilterApplied"))
+//@ func (*intResolver).FilterApplied
+//@   ensures {C02} @literals-carry-no-opt-out !r0
+//@ func (*floatResolver).FilterApplied
+//@   ensures {C02} @literals-carry-no-opt-out !r0
+//@ func (*boolResolver).FilterApplied
+//@   ensures {C02} @literals-carry-no-opt-out !r0
+
+// ---- options (C15): off unless asked for; a template takes over exactly the options of its set ----
+//@ func newOptions
+//@   ensures {C15} @whitespace-options-are-off-by-default r0 != nil && fresh(r0) && !r0.TrimBlocks && !r0.LStripBlocks
+//@ func (*Options).Update
+//@   ensures {C15} @takes-over-both-options-and-leaves-the-source-alone r0 == opt && opt.TrimBlocks == other.TrimBlocks && opt.LStripBlocks == other.LStripBlocks && other.TrimBlocks == old(other.TrimBlocks) && other.LStripBlocks == old(other.LStripBlocks)
+
+// ---- calling through reflection (C01, C08): reflect.Value.Call panics on a nil function value (an unset func
+// field, a nil func in the context); a method value is never nil ----
+//@ extern (reflect.Value).IsNil(v) (r0)
+//@   pure as RVIsNilOf
+//@   requires {C01,C08} @a-kind-that-can-be-nil RVKind(v) == 18 || RVKind(v) == 19 || RVKind(v) == 20 || RVKind(v) == 21 || RVKind(v) == 22 || RVKind(v) == 23 || RVKind(v) == 26
+//@ extern (reflect.Value).Call(v, in) (r0)
+//@   requires {C01,C08} @not-a-nil-function !RVIsNilOf(v)
+
+// ---- recursion that no measure bounds (C01): compiling a file is not started from inside the compilation or the
+// execution of a template, unless something bounds the nesting. Nothing does on this tree (recorded findings): a
+// file that includes, extends or imports itself - directly or through others - recurses until the stack is gone ----
+//@ reentry {C01} (*TemplateSet).FromFile (*Template).execute
+
+// ---- every set starts with options of its own (C20: options of different sets never influence one another) ----
+//@ func NewSet
+//@   ensures {C15,C20} @options-of-its-own r0 != nil && r0.Options != nil && fresh(r0.Options) && !r0.Options.TrimBlocks && !r0.Options.LStripBlocks
+//@   ensures {C20} @cache-globals-and-ban-lists-of-its-own fresh(r0) && fresh(r0.templateCache) && fresh(r0.Globals) && fresh(r0.bannedTags) && fresh(r0.bannedFilters)
+// the shortcuts compile in the set they are called on
+//@ func (*TemplateSet).RenderTemplateString
+//@   at (*TemplateSet).FromString requires {C03,C20} @in-this-set arg0 == set
+//@ func (*TemplateSet).RenderTemplateBytes
+//@   at (*TemplateSet).FromBytes requires {C03,C20} @in-this-set arg0 == set
+//@ func (*TemplateSet).RenderTemplateFile
+//@   at (*TemplateSet).FromFile requires {C03,C11,C20} @in-this-set arg0 == set
+// a nil value prints as nothing, whatever methods its type has (C01, C08)
+//@ func (*Value).String
+//@   ensures {C01,C08} @nil-prints-as-nothing VIsNil(v) ==> r0 == ""
+
+// ---- sorting happens on copies (C05, C12): see the engine's frame obligation for the sort package ----
+//@ extern sort.Reverse(data) (r0)
+//@   ensures r0 != nil
+
+// a comment ends at the first end marker behind its opening (C06): `{##}` is an empty comment
+//@ func (*lexer).run
+//@   invariant 1 {C06} @no-end-marker-has-been-passed forall k int :: (l.start + 2 <= k && k < l.pos) ==> !prefixat(l.input, k, "#}")
+//@   at (*lexer).ignore#2 requires {C06} @the-comment-ends-at-its-first-end-marker forall k int :: (l.start + 2 <= k && k < l.pos - 2) ==> !prefixat(l.input, k, "#}")
+
+// reflect's panicking field accessors (C01, C08): FieldByIndex and FieldByName panic when the path to a promoted
+// field runs through a nil embedded pointer; nothing in the model can rule that out for a value from the context,
+// so their use is an unprovable obligation (the package uses FieldByIndexErr and walks the path itself)
+//@ spec RVPathHasNoNilPointer(v reflect.Value) bool
+//@ extern (reflect.Value).FieldByIndex(v, index) (r0)
+//@   requires {C01,C08} @no-nil-embedded-pointer-on-the-way-to-the-field RVPathHasNoNilPointer(v)
+//@ extern (reflect.Value).FieldByName(v, name) (r0)
+//@   requires {C01,C08} @no-nil-embedded-pointer-on-the-way-to-the-field RVPathHasNoNilPointer(v)
+
+// every definition of the block on the way from the root to the leaf is collected, an empty one too (C10: an empty
+// override in a child does remove the parent's content)
+//@ func (*tagBlockNode).getBlockWrappers
+//@   iterend 0 {C10} @a-definition-on-the-way-is-never-skipped (has(cur_tpl.blocks, node.name) && cur_tpl.blocks[node.name] != nil) ==> len(next_nodeWrappers) == len(nodeWrappers) + 1
+
+// what a rendering sees (C08, C11, C12): the caller's entries, then - for names the caller did not give - the set's
+// globals, and nothing else
+//@ func (*Template).newContextForExecution
+//@   at newExecutionContext requires {C08,C11,C12} @the-callers-entries-are-seen-as-given forall k string :: (context != nil && has(context, k)) ==> (has(arg1, k) && arg1[k] == context[k])
+//@   at (Context).Update#1 requires {C08,C11,C12} @before-the-callers-entries-are-laid-over-it-the-context-holds-exactly-the-globals arg0 == newContext && arg1 == context && (forall k string :: (has(tpl.set.Globals, k) ==> (has(newContext, k) && newContext[k] == tpl.set.Globals[k])) && (!has(tpl.set.Globals, k) ==> !has(newContext, k)))
+//@   at (Context).Update#0 requires {C08,C11,C12} @starts-from-the-sets-globals arg1 == tpl.set.Globals && fresh(arg0)
+
+// FromFile (C11, C19): what the compilation of the loaded text says - the template or its error - is handed on as
+// it is; only a load that failed is reported with the sender "fromfile" (which is what `if_exists` looks at)
+//@ func (*TemplateSet).FromFile
+//@   ensures {C11,C19} @what-the-compilation-says-is-handed-on-as-it-is calls("newTemplate") > 0 ==> (r0 == lastresult("newTemplate") && r1 == lastresult("newTemplate", 1))
+//@   ensures {C11} @a-failed-load-is-reported-as-such calls("newTemplate") == 0 ==> (r0 == nil && r1 != nil && typeis(r1, "*Error") && unbox(r1, "*Error").Sender == "fromfile" && unbox(r1, "*Error").Filename == filename)
+
+// every variant goes through the one execution function, exactly once (C14: same bytes, same failures)
+//@ func (*Template).newBufferAndExecute
+//@   ensures {C14} @executes-exactly-once calls("(*Template).execute") == 1 && r1 == lastresult("(*Template).execute")
+//@ func (*Template).newTemplateWriterAndExecute
+//@   ensures {C14} @executes-exactly-once calls("(*Template).execute") == 1 && r0 == lastresult("(*Template).execute")
+
+// whitespace inside a tag is dropped one character at a time, so that a line break - which would have to start a
+// new line for the positions that follow - is seen and refused (C16)
+// strings.ContainsRune on the constant set of whitespace characters (library semantics, as in the engine's model)
+//@ axiom forall r int :: runein(tokenSpaceChars, r) ==> (r == 32 || r == 10 || r == 13 || r == 9)
+//@ func (*lexer).stateCode
+//@   at (*lexer).ignore#0 requires {C16} @one-whitespace-character-that-is-not-a-line-break l.pos == l.start + 1 && strat(l.input, l.start) != 10
+// the dashes remove exactly the whitespace they name, on their side only (C15)
+//@ func (*nodeHTML).Execute
+//@   at TemplateWriter.WriteString requires {C15} @what-the-two-trimmings-left ((n.trimLeft && !n.trimRight) ==> arg1 == lastresult("strings.TrimLeft")) && (n.trimRight ==> arg1 == lastresult("strings.TrimRight"))
+
+// string literals (C07, C19): inside a quoted string \" stands for a quote and \\ for a backslash, nothing else is
+// rewritten, and the token carries the result
+//@ func (*lexer).emit
+//@   at strings.Replace#0 requires {C07,C19} @an-escaped-quote-stands-for-a-quote t == TokenString && arg0 == substr(l.input, l.start, l.pos) && arg1 == "\\\"" && arg2 == "\"" && arg3 == -1
+//@   at strings.Replace#1 requires {C07,C19} @an-escaped-backslash-stands-for-a-backslash t == TokenString && arg0 == lastresult("strings.Replace") && arg1 == "\\\\" && arg2 == "\\" && arg3 == -1
+//@   ensures {C07,C19} @body-a-string-token-carries-the-unescaped-text t == TokenString ==> (tok.Val == lastresult("strings.Replace") && calls("strings.Replace") == 2)
+//@   ensures {C07,C19} @body-other-tokens-are-not-unescaped (t != TokenString && t != TokenSymbol) ==> (calls("strings.Replace") == 0 && tok.Val == old(substr(l.input, l.start, l.pos)))
+
+// numbers given as text (C18: filter arguments such as "010" are decimal), and what can be sliced
+//@ func (*Value).Integer
+//@   at strconv.ParseFloat requires {C18} @the-text-of-the-value-as-a-64-bit-decimal arg0 == RVString(Resolved(v.val)) && arg1 == 64
+//@   ensures {C18} @a-string-is-read-as-the-decimal-number-it-spells RVKind(Resolved(v.val)) == 24 ==> (calls("strconv.ParseFloat") == 1 && (lastresult("strconv.ParseFloat", 1) != nil ==> r0 == 0) && (lastresult("strconv.ParseFloat", 1) == nil ==> r0 == toint(lastresult("strconv.ParseFloat"))))
+//@ func (*Value).Float
+//@   at strconv.ParseFloat requires {C18} @the-text-of-the-value-as-a-64-bit-decimal arg0 == RVString(Resolved(v.val)) && arg1 == 64
+//@   ensures {C18} @a-string-is-read-as-the-decimal-number-it-spells RVKind(Resolved(v.val)) == 24 ==> (calls("strconv.ParseFloat") == 1 && (lastresult("strconv.ParseFloat", 1) == nil ==> r0 == lastresult("strconv.ParseFloat")))
+//@ func (*Value).CanSlice
+//@   ensures {C18} @arrays-slices-and-strings-can-be-sliced r0 == (RVKind(Resolved(v.val)) == 17 || RVKind(Resolved(v.val)) == 23 || RVKind(Resolved(v.val)) == 24)
